@@ -40,9 +40,9 @@ Results ==
                /\ out[zk][1] \in {3, 33} => out[zk][5] = out[zk][2] + out[zk][3] + out[zk][4]
                /\ out[zk][1] = 4 => out[zk][4] = out[zk][3] - out[zk][2]
       /\ prog = "ref" =>
-            \A zk \in 1..Len(out) : /\ out[zk][4] = 2 * out[zk][3] + 1
-                                    /\ {out[zk][1], out[zk][2]} = {"g1", "g2"}
-                                    /\ out[zk][3] = zk - 1
+            \A zk \in 1..Len(out) : /\ out[zk][1] = zk - 1
+                                    /\ out[zk][2] = 2 * out[zk][1] + 1
+                                    /\ {out[zk][3], out[zk][4]} = {mem.g1, mem.g2} \/ zk < Len(out)
       /\ prog = "tree" =>
             /\ Len(out) = TreeN(arg)
             /\ {out[zk][1] : zk \in 1..Len(out)} = 1..TreeN(arg)
